@@ -374,8 +374,11 @@ IR_FUEL = 4000
 HLSL_FUEL = 40000
 
 
-def validate(tools, irrun, hlslrun, programs, optnames, n_inputs, rng, want_validate=True):
-    """programs: [(name, wgsl)].  Returns (stats, records) where records are dicts with verdict != agree."""
+def validate(tools, irrun, hlslrun, programs, optnames, n_inputs, rng, want_validate=True, ref_sources=None, fix_input=None):
+    """programs: [(name, wgsl)].  Returns (stats, records) where records are dicts with verdict != agree.
+    ref_sources: {name: wgsl} - the IR reference of that program is taken from THIS source (same declarations; e.g. the
+    bounds-check policy written out in WGSL) instead of from the program itself; fix_input(name, prog, inp, k) may
+    overwrite generated inputs (hostile indices)."""
     stats = {"programs": 0, "compiled": 0, "entry_points": 0, "hlsl_entry_points_parsed": 0, "runs": 0, "agree": 0,
              "mismatch": 0, "hlsl_ub": 0, "out_of_fragment": 0, "ir_undefined": 0, "fuel": 0, "special_float_only": 0,
              "not_compiled": 0, "reader_out_of_fragment_items": 0, "inputs_unsupported": 0}
@@ -383,8 +386,12 @@ def validate(tools, irrun, hlslrun, programs, optnames, n_inputs, rng, want_vali
     for pi, (name, src) in enumerate(programs):
         for on in optnames:
             jobs.append({"id": "%d/%s" % (pi, on), "src": src, "want": ["ir", "validate"], "opts": OPTION_SETS[on]})
+    for pi, (name, src) in enumerate(programs):
+        if ref_sources and name in ref_sources:
+            jobs.append({"id": "%d/__ref" % pi, "src": ref_sources[name], "want": ["ir", "validate"], "opts": OPTION_SETS[optnames[0]]})
     res = nagarun.parallel_batches(tools["hlsldrive"], "compile", jobs, per_job_timeout=30.0, chunk=16)
     progs = {}
+    refs = {}
     records = []
     oof_reasons = {}
     for pi, (name, src) in enumerate(programs):
@@ -422,8 +429,22 @@ def validate(tools, irrun, hlslrun, programs, optnames, n_inputs, rng, want_vali
                     stats["inputs_unsupported"] += 1
                     oof_reasons["inputs: " + str(e)] = oof_reasons.get("inputs: " + str(e), 0) + 1
                     break
+                if fix_input is not None:
+                    fix_input(name, base, inp, k)
                 inputs[(pi, epi, k)] = inp
-                ir_jobs.append(ir_job(base, epi, inp, IR_FUEL))
+                refprog = base
+                if ref_sources and name in ref_sources:
+                    rr = res.get("%d/__ref" % pi) or {}
+                    if "ir" not in rr or rr.get("validate"):
+                        stats["not_compiled"] += 1
+                        records.append({"verdict": "reference_rejected", "program": name, "detail": str(rr.get("err") or rr.get("validate"))[:300],
+                                        "src": ref_sources[name]})
+                        del inputs[(pi, epi, k)]
+                        break
+                    if pi not in refs:
+                        refs[pi] = Program(name + "/ref", optnames[0], {"ir": rr["ir"]})
+                    refprog = refs[pi]
+                ir_jobs.append(ir_job(refprog, epi, inp, IR_FUEL))
                 ir_keys.append((pi, epi, k))
             for on in optnames:
                 pr = progs.get((pi, on))
@@ -477,7 +498,7 @@ def validate(tools, irrun, hlslrun, programs, optnames, n_inputs, rng, want_vali
                 bufs[reg], _m = pr.types.to_bytes(th, inp["ir_globals"][gi])
             inp["buffers"] = bufs
             ep = pr.ir["EntryPoints"][epi]
-            r_ir.append(ir_job(pr, epi, inp, IR_FUEL))
+            r_ir.append(ir_job(refs.get(pi, pr), epi, inp, IR_FUEL))
             r_hl.append(hlsl_job(pr, ep, inp, HLSL_FUEL))
             meta.append((pi, on, epi, k, inp, verdict, detail))
         ir2 = run_models_parallel(irrun, r_ir)
